@@ -67,6 +67,10 @@ pub fn all_cases(ctx: &AllCtx) -> Vec<Case> {
 
 pub const SLOTS: u64 = 96;
 
+/// pseudo shape numbers for the pair-of-faults rows
+pub const PAIR_RICH: u64 = 1000;
+pub const PAIR_MINIMAL: u64 = 1001;
+
 /// fewest slots a (case, shape) gets; slots beyond its enumerated mutations draw random mutations
 pub const MIN_SLOTS: u64 = 24;
 
@@ -101,6 +105,19 @@ impl C03 {
             muts.extend(truncations(f, world));
             muts
         };
+        if shape == PAIR_MINIMAL {
+            // the leanest frame (empty arrays and strings, optional parts absent): pairs of faults only
+            let mut wl = Rng::new(crate::rng::run_seed(master ^ 0x9A1B, &case.label(), 0xC03));
+            let kn = Knobs { max_arr: 0, max_str: 0, take_optional: Some(false), ..knobs.clone() };
+            let f = encode_case(&self.ctx, case, &mut wl, &kn)?;
+            let m = pair_mutations(&f, 120);
+            return Some((f, m));
+        }
+        if shape == PAIR_RICH {
+            let (f, _) = self.frame_for(case, 0, master)?;
+            let m = pair_mutations(&f, 160);
+            return Some((f, m));
+        }
         if shape == 0 {
             let mut best: Option<(Frame, Vec<Mutation>)> = None;
             for k in 0..6u64 {
@@ -138,6 +155,16 @@ impl C03 {
                     let n = self.frame_for(c, shape, master).map(|x| x.1.len() as u64).unwrap_or(0).clamp(if shape == 0 { MIN_SLOTS } else { 1 }, 600);
                     rows.push((ci, shape, total, n));
                     total += n;
+                }
+            }
+            // pairs of faults (T10) on the richest and on the leanest frame of every message
+            for shape in [PAIR_RICH, PAIR_MINIMAL] {
+                for (ci, c) in self.cases.iter().enumerate() {
+                    let n = self.frame_for(c, shape, master).map(|x| x.1.len() as u64).unwrap_or(0);
+                    if n > 0 {
+                        rows.push((ci, shape, total, n));
+                        total += n;
+                    }
                 }
             }
             EnumTable { rows, total }
@@ -197,6 +224,10 @@ pub enum Entry {
     Enum,
     Expect(String),
     Initial,
+    /// login only: the protocol-parameterised reader of the collective (version 8) opcode enum
+    EnumProtocol,
+    /// login only: the protocol-parameterised typed helper for the collective type of that name
+    ExpectProtocol(String),
 }
 
 pub fn read_any(c: &Case, entry: &Entry, fl: Flavour, rd: &mut SimReader<'_>, budget: u64) -> (Result<String, ErrSig>, u64, bool) {
@@ -206,6 +237,8 @@ pub fn read_any(c: &Case, entry: &Entry, fl: Flavour, rd: &mut SimReader<'_>, bu
                 Entry::Enum => login_read_enum(v, c.dir, fl, rd, budget),
                 Entry::Expect(n) => login_read_expect(v, c.dir, n, fl, rd, budget),
                 Entry::Initial => Some(login_read_initial(fl, rd, budget)),
+                Entry::EnumProtocol => login_read_enum_protocol(v, c.dir, fl, rd, budget),
+                Entry::ExpectProtocol(n) => login_read_expect_protocol(v, c.dir, n, fl, rd, budget),
             };
             match o {
                 Some(o) => (o.result.map(|(d, b)| format!("{}|{}", d, hex(&b))), o.polls, o.budget_exceeded),
@@ -214,7 +247,7 @@ pub fn read_any(c: &Case, entry: &Entry, fl: Flavour, rd: &mut SimReader<'_>, bu
         }
         None => {
             let o = match entry {
-                Entry::Expect(n) => read_expect(c.exp, c.dir, n, fl, None, rd, budget).map(|x| x.0),
+                Entry::Expect(n) | Entry::ExpectProtocol(n) => read_expect(c.exp, c.dir, n, fl, None, rd, budget).map(|x| x.0),
                 _ => Some(read_enum(c.exp, c.dir, fl, None, rd, budget)),
             };
             match o {
@@ -231,6 +264,10 @@ pub fn entry_of(v: &Value) -> Entry {
         Entry::Initial
     } else if let Some(n) = s.strip_prefix("expect:") {
         Entry::Expect(n.to_string())
+    } else if let Some(n) = s.strip_prefix("expect-protocol:") {
+        Entry::ExpectProtocol(n.to_string())
+    } else if s == "enum-protocol" {
+        Entry::EnumProtocol
     } else {
         Entry::Enum
     }
@@ -260,7 +297,7 @@ impl Check for C03 {
         "fault_enumeration"
     }
     fn rule(&self) -> String {
-        format!("Fault enumeration through the model peer's field maps: for every message of every target (6 login protocol versions, 3 expansions, both directions; quick tier: one frame shape per message, thorough: three) a canonical frame is generated and every structured corruption is injected once (as many slots per message as its richest frame out of 6 candidates has enumerated faults, at least {}; thorough: two more shapes): truncation at each field boundary and inside a field (stream ends early / header announces less), every count/length/size/decompressed-size/mask-block-count field set to 0, 1, true+-1, 0x7F.., 0x80.., max, every enum field an undeclared value, Bool>=2, flags all-ones, DateTime out of range and at its field boundaries (hour 24, month 12, the day after the month's last with each of the 7 weekdays), a well-formed zlib stream that inflates to 1.25 GiB, strings without NUL / invalid UTF-8 / 300 bytes, packed-guid and built-in mask patterns announcing more than remains, sentinel-less achievement arrays; slots beyond the enumerated faults and the sampled part draw compressed-payload corruption, lying headers, bit flips, random bodies and combinations. The faulty frame is placed after 0-2 intact messages and before one more, and is read through the opcode-enum reader, the typed expect helper (and read_initial_message for login) by the blocking (whole buffer and chunked with EINTR), tokio and async-std readers under a scheduled delivery, and (world) once more through the decrypting readers with the headers encrypted under the session key, as an authenticated hostile peer would send them. Every read must return Ok or Err; panics are caught with location, process deaths attributed by the supervisor, allocation observed by a counting allocator (budget 1 GiB per scenario). Non-trivial: the fault actually reached a reader (a mutated byte or the cut was delivered); distinct = distinct event-log hashes.", MIN_SLOTS)
+        format!("Fault enumeration through the model peer's field maps: for every message of every target (6 login protocol versions, 3 expansions, both directions; quick tier: one frame shape per message, thorough: three) a canonical frame is generated and every structured corruption is injected once (as many slots per message as its richest frame out of 6 candidates has enumerated faults, at least {}; thorough: two more shapes): truncation at each field boundary and inside a field (stream ends early / header announces less), every count/length/size/decompressed-size/mask-block-count field set to 0, 1, true+-1, 0x7F.., 0x80.., max, every enum field an undeclared value, Bool>=2, flags all-ones, DateTime out of range and at its field boundaries (hour 24, month 12, the day after the month's last with each of the 7 weekdays), a well-formed zlib stream that inflates to 1.25 GiB, strings without NUL / invalid UTF-8 / 300 bytes, packed-guid and built-in mask patterns announcing more than remains, sentinel-less achievement arrays; pairs of faults (T10: a string or count fault in one field AND the body ending at a later field boundary, on the richest and on the leanest frame of the message); slots beyond the enumerated faults and the sampled part draw compressed-payload corruption, lying headers, bit flips, random bodies and combinations. The faulty frame is placed after 0-2 intact messages and before one more, and is read through the opcode-enum reader, the typed expect helper (and read_initial_message for login) by the blocking (whole buffer and chunked with EINTR), tokio and async-std readers under a scheduled delivery, and (world) once more through the decrypting readers with the headers encrypted under the session key, as an authenticated hostile peer would send them. Every read must return Ok or Err; panics are caught with location, process deaths attributed by the supervisor, allocation observed by a counting allocator (budget 1 GiB per scenario). Non-trivial: the fault actually reached a reader (a mutated byte or the cut was delivered); distinct = distinct event-log hashes.", MIN_SLOTS)
     }
     fn assumptions(&self) -> Vec<String> {
         vec![
@@ -342,9 +379,11 @@ impl Check for C03 {
             })
         };
         let total = faulty.len() + 200;
-        let entry = match (case.login, cf.below(3)) {
+        let entry = match (case.login, cf.below(if case.login.is_some() { 5 } else { 3 })) {
             (Some(_), 0) if case.dir == Dir::Client && (case.name == "CMD_AUTH_LOGON_CHALLENGE_Client" || case.name == "CMD_AUTH_RECONNECT_CHALLENGE_Client") => "initial".to_string(),
             (_, 1) => format!("expect:{}", case.name),
+            (Some(_), 3) => "enum-protocol".to_string(),
+            (Some(_), 4) => format!("expect-protocol:{}", case.name),
             _ => "enum".to_string(),
         };
         let end_error = match cf.below(4) {
@@ -403,6 +442,8 @@ impl Check for C03 {
                 // the typed helper is asked for the type the peer is supposed to send at this position
                 let entry = match (&entry0, names.get(k)) {
                     (Entry::Expect(_), Some(n)) => Entry::Expect(n.clone()),
+                    (Entry::ExpectProtocol(_), Some(n)) => Entry::ExpectProtocol(n.clone()),
+                    (Entry::ExpectProtocol(_), None) | (Entry::EnumProtocol, _) => Entry::EnumProtocol,
                     (Entry::Initial, _) if k == names.len() - 1 - if sc["post"].is_null() { 0 } else { 1 } => Entry::Initial,
                     (Entry::Initial, _) => Entry::Enum,
                     (Entry::Expect(_), None) => Entry::Enum,
